@@ -1,6 +1,7 @@
 import NurbsVerif.Model.Mesh
 import NurbsVerif.Model.Eval
 import NurbsVerif.Driver.Parse
+import NurbsVerif.Driver.TrimMesh
 /- handlers for the tessellation ops (C15)
 
    mesh tri  su sv s            -> V=<n> uv=<u,v;…> src=<i,…> F=<a,b,c;…> E=<n>
@@ -67,6 +68,6 @@ def handleMesh : List String → Option String
         let x := surfacePoint pu pv (fn Uu) (fn Uv) cu cv P p.1 p.2
         if rat == "1" then project x else x
       return showPts pts
-  | _ => none
+  | toks => handleTrimMesh toks   -- mesh trimcell / mesh trim (Driver/TrimMesh.lean)
 
 end Drv
